@@ -482,6 +482,53 @@ fn non_http_locations_via_proxy(ctx: &Ctx) -> u64 {
     n
 }
 
+/// Redirects between an https and an http origin, both ways, against the TLS lab: an absolute
+/// Location is followed whatever the scheme of the hop it came from.
+fn tls_hop_cells(ctx: &Ctx) -> u64 {
+    let lab = crate::tlslab::lab();
+    let mut n = 0;
+    for (from_https, status) in [(true, 301u16), (true, 302), (true, 307), (false, 302), (false, 308)] {
+        n += 1;
+        let _ = lab.take_log();
+        // origin4 is the first hop, the lab's proxy listener plays the second origin
+        let (first, second) = (&lab.origin4, &lab.proxy);
+        let second_url = format!("{}://127.0.0.1:{}/landing?x=1", if from_https { "http" } else { "https" }, second.addr.port());
+        let loc = second_url.clone();
+        first.set(|cfg| {
+            cfg.outer_cert = if from_https { Some("good".into()) } else { None };
+            cfg.response = format!("HTTP/1.1 {status} Moved\r\nLocation: {loc}\r\nContent-Length: 0\r\n\r\n").into_bytes();
+        });
+        second.set(|cfg| {
+            cfg.outer_cert = if from_https { None } else { Some("good".into()) };
+            cfg.response = b"HTTP/1.1 200 OK\r\nContent-Length: 7\r\n\r\nlanding".to_vec();
+        });
+        let first_url = format!("{}://127.0.0.1:{}/start", if from_https { "https" } else { "http" }, first.addr.port());
+        let u = first_url.clone();
+        let res = guarded(move || {
+            attohttpc::get(&u)
+                .proxy_settings(attohttpc::ProxySettings::builder().build())
+                .danger_accept_invalid_certs(true)
+                .timeout(std::time::Duration::from_secs(10))
+                .send()
+                .and_then(|r| {
+                    let (st, url) = (r.status().as_u16(), r.url().as_str().to_string());
+                    r.text().map(|t| (st, url, t))
+                })
+        });
+        let ok = matches!(&res, Ok(Ok((200, url, body))) if *url == second_url && body == "landing");
+        ctx.outcome(format!("tls-hop:{}:{}", if from_https { "https-to-http" } else { "http-to-https" }, if ok { "followed" } else { "not-followed" }));
+        if !ok {
+            ctx.violation(
+                "C09:usable-location-not-followed",
+                format!("{first_url} answers {status} with Location {second_url}: outcome {}", format!("{res:?}").chars().take(160).collect::<String>()),
+                json!({"engine": "c09", "tls_hop": true}),
+                2000 + n,
+            );
+        }
+    }
+    n
+}
+
 /// A prepared request sent twice: every send() starts from the prepared URL with a fresh redirect
 /// count; the second exchange is the first one over again.
 fn prepared_twice(ctx: &Ctx) -> u64 {
@@ -580,6 +627,8 @@ pub fn c09(ctx: &Ctx) -> Report {
     ctx.count("non_http_location_cases", n_non_http);
     let n_non_http_proxy = non_http_locations_via_proxy(ctx);
     ctx.count("non_http_location_via_proxy_cases", n_non_http_proxy);
+    let n_tls_hops = tls_hop_cells(ctx);
+    ctx.count("tls_hop_cells", n_tls_hops);
     let n_extreme = extreme_bounds(ctx);
     ex += n_extreme;
     let n_twice = prepared_twice(ctx);
